@@ -29,6 +29,8 @@ impl Ctx {
         let b = if self.build.starts_with("dbg") { b / 3 } else { b };
         (b / self.nshards as u64).max(1)
     }
+    /// enumerations are thinned for the slower builds: every k-th case, offset from the seed
+    pub fn stride_mult(&self) -> u64 { (if self.mode == Mode::Asan { 5 } else { 1 }) * (if self.build.starts_with("dbg") { 2 } else { 1 }) }
     pub fn rng(&self, salt: u64) -> Rng { Rng::from_parts(self.seed, &self.prop, self.shard, salt) }
     /// rng that does not depend on VERIF_SEED (for deterministic corpora)
     pub fn fixed_rng(&self, salt: u64) -> Rng { Rng::from_parts(0x5EED, "fixed", self.shard, salt) }
